@@ -1471,8 +1471,16 @@ def weave_tree(repo, out, extra_modules=None, contracts_dir=CONTRACTS, vacuity=F
                                          "contracted": spec is not None})
         all_specs[rel] = fnspecs
         scan_proof_fns(woven, rel, shift, anchors)
+    unc = sorted("%s::%s" % (f["file"], f["key"]) for f in anchors["functions"] if not f["contracted"])
     if record_baseline:
+        new_baseline["__uncontracted__"] = unc
         json.dump(new_baseline, open(bp, "w"), indent=1, sort_keys=True)
+    else:
+        # functions that exist in this tree, have no contract and did not exist on the tree the
+        # contracts were written for: their callers see no postcondition at all, so a failure in
+        # a caller is a missing contract, not a verdict about the code (verus_run -> undecided)
+        known = set(BASELINE.get("__uncontracted__", []))
+        report["new_functions"] = [u for u in unc if u not in known] if known else []
     # vacuity probes: one proof fn per contracted function, `requires` = its preconditions,
     # `ensures false`; every probe must FAIL (a probe that verifies = contradictory precondition)
     probes = report.get("vacuity", [])
